@@ -80,6 +80,11 @@ func (b *mkBuilder) ogMetas() []string {
 			*list = append(*list, mkOgMeta(prop, val))
 		case "empty":
 			*list = append(*list, mkOgMeta(prop, ""))
+		case "absent":
+			// a required property that is "not present" is either missing or there without a value
+			if (prop == "og:title" || prop == "og:type" || prop == "og:url") && s.Shape != "none" && b.g.rng.Intn(2) == 0 {
+				*list = append(*list, mkOgMeta(prop, ""))
+			}
 		}
 	}
 	typ := "article"
